@@ -188,7 +188,16 @@ def np_nan_to_num(x, copy=True, nan=0.0, posinf=None, neginf=None):
         if posinf is not None and neginf is not None and posinf == neginf:
             t = z3.If(x.inf, real(to_term(posinf)), t)
         else:
-            t = z3.If(x.inf, z3.Real(fresh_name("huge")), t)
+            # +-inf -> +-(largest finite float): a value determined by the input (same input term, same value)
+            cache = CUR.ctx.__dict__.setdefault("_huge", {}) if CUR is not None else {}
+            key = x.t.get_id()
+            if key not in cache:
+                args = [root_space(a).u for a in x.axes if a is not ONE]
+                if args:
+                    cache[key] = z3.Function(fresh_name("huge"), *([z3.IntSort()] * len(args) + [z3.RealSort()]))(*args)
+                else:
+                    cache[key] = z3.Real(fresh_name("huge"))
+            t = z3.If(x.inf, cache[key], t)
     if x.nan is not None:
         t = z3.If(x.nan, real(to_term(nan)), t)
     return V(t, x.axes, None)
@@ -317,10 +326,25 @@ def make_np_quantile(interp):
         reg = interp.ctx.__dict__.setdefault("_quant", QuantileRegistry())
         key = (x.t.get_id(), axis)
         idx = [root_space(a).u for a in rest if a is not ONE]
-        fn = interp.ctx.__dict__.setdefault("_quant_fns", {}).get(key)
+        fns = interp.ctx.__dict__.setdefault("_quant_fns", {})
+        fn = fns.get(key)
+        if fn is None:
+            # the same array computed twice (e.g. once per requested level): provably equal entries => same quantiles
+            for (k2, (f2, x2, ax2)) in list(interp.ctx.__dict__.setdefault("_quant_arrays", {}).items()):
+                if ax2 == axis and len(x2.axes) == len(x.axes) and all(same_axis(p, q) for p, q in zip(x2.axes, x.axes)) and x2.t.sort() == x.t.sort():
+                    sv = z3.Solver()
+                    sv.set("timeout", 3000)
+                    for f_ in interp.ctx.pc:
+                        sv.add(f_)
+                    sv.add(x2.t != x.t)
+                    if sv.check() == z3.unsat:
+                        fn = f2
+                        key = k2
+                        break
         if fn is None:
             fn = z3.Function(fresh_name("quantile"), *([z3.IntSort()] * len(idx) + [z3.RealSort(), z3.RealSort()]))
-            interp.ctx._quant_fns[key] = fn
+            interp.ctx._quant_arrays[key] = (fn, x, axis)
+        fns[key] = fn
         outs = []
         for qq in qs:
             qt = real(lift(qq).t)
